@@ -79,7 +79,40 @@ chk("C13", "seqx", "model_checking",
     "Depth <= 5, at most two simultaneously extracted branches, 2-D positions; mutation of already inserted branches "
     "is outside the alphabet (the code aliases them by design).", "DESIGN.md §5/C13")
 
+ENVA_NOTE = ("Bounded: <= 1 (quick) / 2 (thorough) simultaneous deviations from a baseline answer function, horizons of "
+             "25-60 legs, <= 9 root nodes; answers from a finite alphabet; hard_disk_dipoles*.ini use a harness start "
+             "configuration; monitors read activator / occupancy internals to formulate the oracle.")
+ENVA_TECH = ("stateless deviation-bounded exploration of the real mediator loop: every random draw is answered by a "
+             "scripted seam, all executions with <= k non-baseline answers (k=1 around 2-4 baselines, k=2 thorough) are "
+             "enumerated for 17 shipped configurations, 14+ scaled/crowded variants and 6 harness templates, with the "
+             "property's invariant monitor evaluated on every leg and commit")
+
+chk("C07", "envx", "exploration", ENVA_TECH,
+    "Every explored execution is a run of the unmodified mediator/activator/scheduler/handlers; the C07 monitor "
+    "compares the global state before and after every commit (continuity mod box, single chain, speed, box, identity) "
+    "and event-time monotonicity from the candidate times pushed to the scheduler.", ENVA_NOTE, "DESIGN.md §5/C07")
+chk("C08", "envx", "exploration", ENVA_TECH,
+    "For every pending interaction / cell-veto candidate the global values of its in-state units at creation are "
+    "stored and compared at every leg (eager form) and at commit (velocity bit-equal, same straight line).",
+    ENVA_NOTE, "DESIGN.md §5/C08")
+chk("C09", "envx", "exploration", ENVA_TECH,
+    "At every leg the pending multiset per tagger (built only from the activator's return values) is compared with "
+    "what the real tagger generates from scratch for the current active state; scheduler live set == running "
+    "handlers; TagActivatorError or any other exception is a violation.", ENVA_NOTE, "DESIGN.md §5/C09")
+chk("C11", "envx", "exploration", ENVA_TECH,
+    "At every leg the occupant / surplus / active records of every cell-occupancy system are compared with the true "
+    "positions (continuous position of the active unit), the occupant cap, and at every commit the active unit must "
+    "be inside its recorded cell unless a cell-boundary event of that system commits.", ENVA_NOTE, "DESIGN.md §5/C11")
+chk("C12", "envx", "exploration", ENVA_TECH,
+    "At every commit of every composite-object configuration: root velocity == weighted sum of leaf velocities "
+    "(absent iff none moves), root position advanced to the event time == weighted nearest-image barycentre.",
+    ENVA_NOTE, "DESIGN.md §5/C12")
+
 ENGINES = [
+    {"name": "envx", "path": "jfv/envx.py", "serves_properties": ["C07", "C08", "C09", "C11", "C12", "C13", "C17", "C01",
+                                                                    "C04"],
+     "kind_free_text": "stateless deviation-bounded exploration of the real event loop under a scripted random seam "
+                       "(prefix replay on dill-cloned mediators, context-keyed draws, invariant monitors)"},
     {"name": "seqx", "path": "jfv/checks/c06.py", "serves_properties": ["C06", "C13", "C11"],
      "kind_free_text": "explicit-state BFS over operation histories on real objects (rebuilt per transition) against "
                        "a reference model, canonical-state deduplication"},
